@@ -38,11 +38,13 @@ structure MPeer where
   accepted : Bool
   deriving Repr
 
-/-- `known_nodes.get(&peer_host_id)`.  `known_nodes` is a `HashMap` (a later insert of the same host id replaces the
-earlier one); `find?` returns the first match — the two agree because host ids of a peer list are distinct (both
-case-line parsers reject repeated ids; the servers' `system.peers` has one row per host id). -/
-def lookupKnown (known : List KNode) (id : Nat) : Option KNode := known.find? (fun k => decide (k.node.id = id))
-
+/-- `known_nodes.get(&peer_host_id)`.  `known_nodes` is a `HashMap` filled by `new_known_nodes.insert(peer_host_id, ..)`
+in peer order (`state.rs:333`): a later insert of the same host id REPLACES the earlier one, so the lookup finds the
+node object of the LAST peer row with that id.  `known` is the list of all inserts in order (`newTopology`), hence
+last match wins.  Nothing in front of `calculate_new_topology` removes repeated host ids (`validate_peers` only
+refuses an empty list / all-empty tokens): `system.peers` is keyed by address, so one host id can be listed twice
+(stale row after an address change, the local node also listed as a peer). -/
+def lookupKnown (known : List KNode) (id : Nat) : Option KNode := known.reverse.find? (fun k => decide (k.node.id = id))
 /-- The node object put into the ring for a peer: reused, re-created with the pool inherited, or new. -/
 def pickNode (known : List KNode) (p : MPeer) : KNode :=
   match p.accepted, lookupKnown known p.node.id with
@@ -79,7 +81,9 @@ def pickArm (known : List KNode) (p : MPeer) : Arm :=
     else .fresh
   | true, none => .fresh
 
-/-- `calculate_new_topology`: new known nodes and ring entries, in metadata order. -/
+/-- `calculate_new_topology`: new known nodes (every `insert`, in metadata order — the map keeps the last per host id,
+see `lookupKnown`) and ring entries, in metadata order.  Every peer row is matched against the OLD `known` only, so
+two rows with one host id give two node objects, both in the ring. -/
 def newTopology (known : List KNode) (peers : List MPeer) : List KNode × List (Int × Node) :=
   (peers.map (pickNode known),
    peers.flatMap (fun p => p.tokens.map (fun tk => (tokenNew tk, (pickNode known p).node))))
